@@ -177,7 +177,7 @@ func cmdCheck(args []string) int {
 				n++
 			}
 		}
-		if n == 0 {
+		if n == 0 && trivialObls[key] == 0 {
 			rep.genErrs = append(rep.genErrs, fmt.Sprintf("%s: function under contract produced no obligations", key))
 		}
 		rep.obls = append(rep.obls, obls...)
